@@ -565,7 +565,9 @@ func c20Broker(c *fw.Ctx, round int) {
 					s := &c02Sent{tag: fmt.Sprintf("st%d-%d-%d-%d", round, k, life, i), topic: fmt.Sprintf("storm/%d/x", rg.Intn(5)), qos: qos}
 					pl := c02Payload(s.tag, rg.Intn(300))
 					s.sum, s.size = sha1sum(pl), len(pl)
-					acked, _ := cc.Publish(s.topic, pl, qos, false, 60*time.Second)
+					// the forced sweeps also expire inbound QoS 2 handshakes that are waiting for PUBREL: such a
+					// publish is simply never acknowledged (and then not required by the oracle) - do not wait long
+					acked, _ := cc.Publish(s.topic, pl, qos, false, 3*time.Second)
 					s.acked = acked
 					mu.Lock()
 					sent = append(sent, s)
@@ -612,23 +614,31 @@ func runC20(c *fw.Ctx) {
 	c.Rule = "built with the Go race detector (GORACE halt_on_error=0, reports collected by the parent and de-duplicated by the pair of outermost non-runtime frames). Repeated randomized stress on all cores, few keys, many goroutines: (1) session registry Create/Get/Delete/ListSessions checked with porcupine against a per-key register; (2) identifier pool Get/Put with a shadow set updated under the harness's lock; (3) in-flight table Insert/Ack/Expire on shared keys with a concurrent sweeper, exactly one outcome per registration; (4) both tries, writers on distinct keys and readers on all (also on stores rebuilt by Load), every distinct-key effect present afterwards; (5) replicated state: local mutators on distinct keys + NotifyMsg/MergeRemoteState/LocalState concurrently, final listing = LWW reference; (6) a session's filter list AddTopic/RemoveTopic/GetTopics; (7) two broker nodes with 30 clients connecting, subscribing, publishing QoS 1/2, disconnecting, while forced expiry sweeps and push/pull exchanges run; conservation oracle of C02 on the steady subscribers; (8) the lifecycle / takeover / will / tenant / retransmission / cross-node scenarios of C11, C12, C13, C17, C03 and C14 re-run under the detector (their own oracles are not judged here). Any race report is a violation. distinct = (workload, round); non-trivial = all"
 	c.Assume("the race detector only sees interleavings the stress produced, and only Go synchronisation")
 	c.Extra("gomaxprocs", runtime.GOMAXPROCS(0))
-	rounds := c.Pick(3, 30)
-	for r := 0; r < rounds; r++ {
-		c20Registry(c, r)
-		c20Pool(c, r)
-		c04Concurrent(c, 100+r)
-		c20Tries(c, r)
-		c20Replicated(c, r)
-		c20MergeRace(c, r)
-		c20SessionTopics(c, r)
+	rounds := c.Pick(8, 40)
+	timed := func(name string, f func()) {
+		t0 := time.Now()
+		f()
+		c.Observe("ms_"+name, int(time.Since(t0).Milliseconds()))
 	}
-	for r := 0; r < c.Pick(2, 12); r++ {
-		c20Broker(c, r)
+	for r := 0; r < rounds; r++ {
+		r := r
+		timed("registry", func() { c20Registry(c, r) })
+		timed("pool", func() { c20Pool(c, r) })
+		timed("inflight", func() { c04Concurrent(c, 100+r) })
+		timed("tries", func() { c20Tries(c, r) })
+		timed("replicated", func() { c20Replicated(c, r) })
+		timed("merge_race", func() { c20MergeRace(c, r) })
+		timed("session_topics", func() { c20SessionTopics(c, r) })
+	}
+	for r := 0; r < c.Pick(4, 16); r++ {
+		r := r
+		timed("broker_storm", func() { c20Broker(c, r) })
 	}
 	// (8) the session-lifecycle, takeover, will, tenant, retransmission and cross-node scenarios of the
 	// other checks, re-run here only so that the race detector sees those code paths (conn.go, packets.go,
 	// nodes.go, grpc.go); their own oracles report to a scratch context - those verdicts belong to C11-C17
 	aux := fw.NewCtx("C20-aux", c.Tier, c.Seed)
+	tAux := time.Now()
 	{
 		var wg sync.WaitGroup
 		run := func(f func()) { wg.Add(1); go func() { defer wg.Done(); f() }() }
@@ -655,6 +665,7 @@ func runC20(c *fw.Ctx) {
 			})
 		}
 		wg.Wait()
+		c.Observe("ms_lifecycle_scenarios", int(time.Since(tAux).Milliseconds()))
 		c.Observe("lifecycle_scenarios_under_race_detector", 8+4+4*c.Pick(4, 40))
 		c.Observe("lifecycle_scenario_oracle_violations_not_counted_here", aux.Violations())
 		if aux.Violations() > 0 {
